@@ -217,9 +217,14 @@ static std::string describe(const Model& m) {
 }
 
 // getters = model, present() = model bits, options_payload() = canonical layout
-static void check_state(Ctx& ctx, const std::string& pfx, const RadioTap& rt, const Model& m, const Where& where) {
+// `unset_too` = also call the getters of fields that are not in the model and expect field_not_present. This is done
+// for the start object, the final object and the re-parsed object; between two setter calls only the getters of
+// present fields, present() and the layout are checked (a C++ throw costs more than the rest of the step, and every
+// prefix of a history is itself a generated history whose final state gets the full check).
+static void check_state(Ctx& ctx, const std::string& pfx, const RadioTap& rt, const Model& m, const Where& where, bool unset_too) {
     for (unsigned g = 0; g < 15; ++g) {
         const GetterDef& gd = GETTERS[g];
+        if (!unset_too && !m.has(gd.bit)) continue;
         std::string sig = pfx + "getter:" + gd.name;
         bool threw_np = false;
         Bytes got;
@@ -535,7 +540,7 @@ void prop(Src& s, Ctx& ctx) {
         if (c.attach_first && c.inner.pdu) { rtp->inner_pdu(c.inner.pdu->clone()); has_inner = true; }
     }
     RadioTap& rt = *rtp;
-    check_state(ctx, "C11:", rt, m, Where{&c.ops, 0, false, "start object"});
+    check_state(ctx, "C11:", rt, m, Where{&c.ops, 0, false, "start object"}, true);
 
     // ---- the setter sequence (every prefix of a history is a history: the state is checked after each call)
     bool moved[NFIELDS] = {false};      // a lower-numbered field was newly added since this field was last set
@@ -584,7 +589,7 @@ void prop(Src& s, Ctx& ctx) {
             os << where << ": payload " << hex(rt.options_payload()) << " canonical " << hex(Bytes(after.header.begin() + 4, after.header.end()));
             ctx.log(os.str());
         }
-        check_state(ctx, "C11:", rt, m, where);
+        check_state(ctx, "C11:", rt, m, where, i + 1 == c.ops.size());
     }
     bool non_bit_order = first_set.size() >= 3 && !std::is_sorted(first_set.begin(), first_set.end());
     if (non_bit_order) ctx.label("non-bit-order>=3");
@@ -646,7 +651,7 @@ void prop(Src& s, Ctx& ctx) {
             } catch (const std::exception& e) {
                 VFAIL(ctx, "C11:parse:threw", "RadioTap(serialized) threw '" << e.what() << "'; serialized " << hex(ser, 512) << " model " << describe(m));
             }
-            check_state(ctx, "C11:parse:", *back, m, Where{&c.ops, 0, false, "re-parsed object"});
+            check_state(ctx, "C11:parse:", *back, m, Where{&c.ops, 0, false, "re-parsed object"}, true);
             const PDU* bi = back->inner_pdu();
             VCHECK(ctx, bi != nullptr, "C11:parse:inner-missing", "re-parsed object has no inner frame; serialized " << hex(ser, 512));
             if (bi) {
